@@ -25,6 +25,10 @@ Bad(i) ==
      ELSE IF e.cls # "error" /\ rec.loc = e.loc THEN {}
      ELSE {10 * i + 2}
 
-AllBad == UNION {Bad(i) : i \in 1..Len(Trace)}
-ASSUME PrintT(<<"TRACE-RESULT", Len(Trace), ToJson(SetToSeq(AllBad))>>)
+VARIABLES i, bad
+tvars == <<i, bad>>
+TInit == i = 1 /\ bad = {}
+TNext == i <= Len(Trace) /\ i' = i + 1 /\ bad' = bad \cup Bad(i)
+TSpec == TInit /\ [][TNext]_tvars
+Report == (i = Len(Trace) + 1) => PrintT(<<"TRACE-RESULT", Len(Trace), ToJson(SetToSeq(bad))>>)
 =============================================================================
